@@ -135,7 +135,7 @@ def WCB.pushField (w : WCB) (ty : Ty) : WCB :=
   if ty.mentions w.gps then { w with types := w.types ++ [ty] } else w
 
 /-- the where-clause items, in emission order -/
-def WCB.items (w : WCB) (f : Ty → Toks) : List Toks := w.types.map f ++ w.preds.map WPred.toks
+def WCB.items (w : WCB) (f : Ty → Toks) : List Toks := w.types.map (fun t => f t.parenIfPlus) ++ w.preds.map WPred.toks
 
 def WCB.build (w : WCB) (f : Ty → Toks) : Toks :=
   let ws := w.items f
